@@ -265,7 +265,8 @@ func workerMain(args []string) int {
 				if len(rf.Trace) > 200 {
 					rf.Trace = rf.Trace[:200]
 				}
-				path := filepath.Join(*replayDir, fmt.Sprintf("%s-%s-%016x-known.json", p.ID, eng.Name, core.HashString(v.Class.String())))
+				// one file per worker: workers of one engine must not write the same path concurrently
+				path := filepath.Join(*replayDir, fmt.Sprintf("%s-%s-%016x-known-w%d.json", p.ID, eng.Name, core.HashString(v.Class.String()), *start))
 				if err := rf.Write(path); err == nil {
 					sum.Violations = append(sum.Violations, VRec{Class: v.Class, Msg: v.Msg, Replay: path, Run: i, Engine: eng.Name, Digest: rf.Digest})
 				}
